@@ -39,10 +39,15 @@ def near_box(b, p, m):
 
 def gen_scene(rng, sid, family=None):
     """a scene dict: opts (5 bools), nudge (string), pen, buf, fspp, boxes [(id,x0,y0,x1,y1)], pins [(sid,cls,xo,yo,ins,dirs)],
-    conns [(id, end, end)] with end = ('P',x,y) | ('S',sid,cls); cps {id: [(x,y)..]}.  All coordinates multiples of 4."""
+    conns [(id, end, end)] with end = ('P',x,y) | ('S',sid,cls); cps {id: [(x,y)..]}.  All coordinates multiples of 4.
+    Optional: fixed {id: [(x,y)..]} connectors with a user-specified route (ConnRef::setFixedRoute), later [[('M',sid,dx,dy)..]..]
+    further transactions (moveShape ops, each list followed by processTransaction).  Families 16-18 (fixed routes, seeded
+    change C10-6) are only generated when asked for by number."""
     fam = family if family is not None else rng.below(16)
     R = 24
     sc = {'id': sid, 'family': fam}
+    if fam in (16, 17, 18):
+        return gen_fixed(rng, sc)
     if fam in (13, 15):
         return gen_cpline(rng, sc)
     if fam == 14:
@@ -175,6 +180,234 @@ def gen_corridor(rng, sc):
         cid = conns[0][0]
         sc['cps'][cid] = [tp((c0 + (w // 8) * 4, L0 + 8))]
     return sc
+
+
+def _transform_pins(sc, mirror, swap):
+    """_transform for scenes with pins, fixed routes and later moveShape transactions (families 16-18): pin offsets and
+    visibility directions (ConnDirUp 1, Down 2, Left 4, Right 8) are mirrored / swapped with the scene"""
+    def tp(p):
+        x, y = p
+        if mirror:
+            x = 400 - x
+        return (y, x) if swap else (x, y)
+
+    def tb(b):
+        (x0, y0), (x1, y1) = tp((b[1], b[2])), tp((b[3], b[4]))
+        return (b[0], min(x0, x1), min(y0, y1), max(x0, x1), max(y0, y1))
+
+    def tdir(d):
+        if mirror:
+            d = (d & 3) | (8 if d & 4 else 0) | (4 if d & 8 else 0)
+        if swap:
+            d = (4 if d & 1 else 0) | (8 if d & 2 else 0) | (1 if d & 4 else 0) | (2 if d & 8 else 0)
+        return d
+
+    def tpin(p):
+        (sid, cls, xo, yo, ins, dirs) = p
+        xo, yo = F(xo), F(yo)
+        if mirror:
+            xo = 1 - xo
+        if swap:
+            xo, yo = yo, xo
+        return (sid, cls, str(float(xo)), str(float(yo)), ins, tdir(dirs))
+
+    def tend(e):
+        return ('P',) + tp(e[1:3]) if e[0] == 'P' else e
+    sc['boxes'] = [tb(b) for b in sc['boxes']]
+    sc['pins'] = [tpin(p) for p in sc['pins']]
+    sc['conns'] = [(c, tend(a), tend(b)) for (c, a, b) in sc['conns']]
+    sc['cps'] = {c: [tp(p) for p in ps] for c, ps in sc['cps'].items()}
+    sc['fixed'] = {c: [tp(p) for p in ps] for c, ps in sc.get('fixed', {}).items()}
+
+    def tmove(m):
+        dx, dy = m[2], m[3]
+        if mirror:
+            dx = -dx
+        return ('M', m[1], dy, dx) if swap else ('M', m[1], dx, dy)
+    sc['later'] = [[tmove(m) for m in ops] for ops in sc.get('later', [])]
+    return sc
+
+
+def gen_fixed(rng, sc):
+    """families 16-18 (seeded change C10-6, DESIGN 9.13): connectors with a user-specified FIXED route (ConnRef::setFixedRoute).
+    A fixed route is never rerouted but "will still be considered for the purpose of nudging" (connector.h): its segments are
+    immovable members of the nudging regions and the other connectors are nudged away from them.
+      16: k Z-shaped connectors (pins on the facing sides of two boxes, or free ends) whose middle segment is centred in its
+          corridor; a fixed route runs exactly along the centre line of one or several of these corridors (straight, L, or
+          Z whose own middle segment is already centred so that it is not shifted itself), nothing else near;
+      17: a fixed route with several bends (staircase of 2-5 bends, arbitrary positions) through a field of boxes with 2-4
+          normally routed connectors sharing its lines (ends on the lines of the fixed route's segments);
+      18: family 16 followed by 1-2 later transactions that move one of the boxes a connector is pinned to (the connector is
+          rerouted, the fixed route must still be avoided)."""
+    fam = sc['family']
+    sc['opts'] = [int(rng.chance(1, 2)) for _ in range(5)]
+    sc['opts'][0] = int(rng.chance(1, 8))
+    sc['nudge'] = rng.choice(['4', '4', '8', '6', '2', '5', '10', '3'])
+    sc['pen'] = rng.choice(['50', '20', '100'])
+    sc['buf'] = '0'
+    sc['fspp'] = '0'
+    sc['cps'] = {}
+    sc['later'] = []
+    boxes, pins, conns, fixed = [], [], [], {}
+    if fam in (16, 18):
+        k = rng.range(1, 3)
+        y = 0
+        centres = []                                    # (centre x, y range of the Z's middle segment)
+        bends = []                                      # free level between corridor c and corridor c + 1
+        for c in range(k):
+            # corridor c: box L (pin on its right side) at the left, box Rr (pin on its left side) at the right, lower down
+            half = rng.range(5, 20) * 4                 # half corridor width
+            cx = 100 + rng.range(0, 10) * 4 + (40 * c if rng.chance(1, 2) else 0)
+            yl = y + rng.range(5, 8) * 4
+            dy = rng.range(8, 20) * 4
+            yr = yl + dy
+            free = rng.chance(1, 3)
+            cid = 10 + 10 * c + rng.below(3)
+            if free:
+                a, b = ('P', cx - half, yl), ('P', cx + half, yr)
+            else:
+                bl = (len(boxes) + 1, cx - half - 20, yl - 12, cx - half, yl + 12)
+                br = (len(boxes) + 2, cx + half, yr - 12, cx + half + 20, yr + 12)
+                boxes += [bl, br]
+                pins += [(bl[0], 1, '1', '0.5', '0', 8), (br[0], 2, '0', '0.5', '0', 4)]
+                a, b = ('S', bl[0], 1), ('S', br[0], 2)
+            if rng.chance(1, 2):
+                a, b = b, a
+            conns.append((cid, a, b))
+            centres.append((cx, yl, yr))
+            y = yr + rng.range(5, 10) * 4
+            bends.append(y)
+        # the fixed route: along the centre line of corridor 0, then (if it uses more corridors) over a bend in the free
+        # level between two corridors on to the next centre line
+        fid = rng.choice([5, 25, 45])                  # never a normal connector's id (10-12, 20-22, ...)
+        use = rng.range(1, len(centres))
+        top = centres[0][1] - rng.range(4, 12) * 4
+        bottom = centres[use - 1][2] + rng.range(4, 12) * 4
+        if use == 2 and rng.chance(1, 2):
+            # make the bend the midpoint of the route's two ends: the library centres a Z-bend's middle segment between the
+            # adjoining ends, so this fixed route is not shifted itself
+            d = max(bends[0] - top, bottom - bends[0])
+            top, bottom = bends[0] - d, bends[0] + d
+        pts = [(centres[0][0], top)]
+        for i in range(use - 1):
+            if centres[i][0] != centres[i + 1][0]:
+                pts.append((centres[i][0], bends[i]))
+                pts.append((centres[i + 1][0], bends[i]))
+        pts.append((centres[use - 1][0], bottom))
+        if rng.chance(1, 5) and len(pts) == 2:
+            # L-shaped fixed route: a last leg off to the side (no middle segment)
+            pts.append((pts[-1][0] + rng.choice([-1, 1]) * rng.range(10, 30) * 4, pts[-1][1]))
+        if rng.chance(1, 2):
+            pts = pts[::-1]
+        fixed[fid] = pts
+        if fam == 18 and boxes:
+            nt = rng.range(1, 2)
+            for _ in range(nt):
+                b = rng.choice(boxes)
+                # a shift along the corridor axis only: the corridor keeps its width and its centre line
+                sc['later'].append([('M', b[0], 0, rng.choice([-2, -1, 1, 2]) * 4)])
+        elif fam == 18:
+            sc['later'].append([])
+    else:
+        # family 17: staircase fixed route + connectors with ends on its lines
+        nbends = rng.range(2, 5)
+        x, y = 100 + rng.range(0, 10) * 4, 20 + rng.range(0, 5) * 4
+        pts = [(x, y)]
+        vertical = rng.chance(1, 2)
+        sx, sy = rng.choice([-1, 1]), 1
+        for i in range(nbends + 1):
+            step = rng.range(6, 20) * 4
+            if vertical:
+                y += sy * step
+            else:
+                x += sx * step
+                if rng.chance(1, 4):
+                    sx = -sx
+            pts.append((x, y))
+            vertical = not vertical
+        fid = rng.choice([5, 25, 45])                  # never a normal connector's id (10-12, 20-22, ...)
+        fixed[fid] = pts if rng.chance(1, 2) else pts[::-1]
+        # boxes away from the fixed route
+        def near_route(b, m):
+            for p, q in zip(pts, pts[1:]):
+                x0, x1 = min(p[0], q[0]), max(p[0], q[0]); y0, y1 = min(p[1], q[1]), max(p[1], q[1])
+                if not (b[2] + m <= x0 or x1 + m <= b[0] or b[3] + m <= y0 or y1 + m <= b[1]):
+                    return True
+            return False
+        t = 0
+        nb = rng.range(0, 3)
+        xs = [p[0] for p in pts]; ysr = [p[1] for p in pts]
+        while len(boxes) < nb and t < 100:
+            t += 1
+            bx = min(xs) - 60 + rng.range(0, (max(xs) - min(xs) + 120) // 4) * 4
+            by = min(ysr) - 40 + rng.range(0, (max(ysr) - min(ysr) + 80) // 4) * 4
+            b = (bx, by, bx + rng.range(3, 8) * 4, by + rng.range(3, 8) * 4)
+            if not near_route(b, 12) and all(box_sep(b, o[1:], 16) for o in boxes):
+                boxes.append((len(boxes) + 1,) + b)
+        nc = rng.range(2, 4)
+        used = set(pts)
+        for c in range(nc):
+            for _ in range(100):
+                # ends relative to a segment of the fixed route: on its line beyond its ends, or beside it on either side
+                i = rng.below(len(pts) - 1)
+                p, q = pts[i], pts[i + 1]
+                if p[0] == q[0]:
+                    lo, hi = min(p[1], q[1]), max(p[1], q[1])
+                    kind = rng.below(3)
+                    if kind == 0:       # a Z across the segment whose middle is likely centred onto it
+                        h = rng.range(4, 16) * 4
+                        a = (p[0] - h, lo + rng.range(1, max(1, (hi - lo) // 8)) * 4)
+                        b = (p[0] + h, hi - rng.range(1, max(1, (hi - lo) // 8)) * 4)
+                    elif kind == 1:     # ends on the segment's own line, beyond it on both sides
+                        a = (p[0], lo - rng.range(2, 10) * 4)
+                        b = (p[0] + rng.range(-3, 3) * 4, hi + rng.range(2, 10) * 4)
+                    else:
+                        a = (p[0] + rng.range(-10, 10) * 4, lo + rng.range(-4, 4) * 4)
+                        b = (p[0] + rng.range(-10, 10) * 4, hi + rng.range(-4, 4) * 4)
+                else:
+                    lo, hi = min(p[0], q[0]), max(p[0], q[0])
+                    kind = rng.below(3)
+                    if kind == 0:
+                        h = rng.range(4, 16) * 4
+                        a = (lo + rng.range(1, max(1, (hi - lo) // 8)) * 4, p[1] - h)
+                        b = (hi - rng.range(1, max(1, (hi - lo) // 8)) * 4, p[1] + h)
+                    elif kind == 1:
+                        a = (lo - rng.range(2, 10) * 4, p[1])
+                        b = (hi + rng.range(2, 10) * 4, p[1] + rng.range(-3, 3) * 4)
+                    else:
+                        a = (lo + rng.range(-4, 4) * 4, p[1] + rng.range(-10, 10) * 4)
+                        b = (hi + rng.range(-4, 4) * 4, p[1] + rng.range(-10, 10) * 4)
+                if a != b and a not in used and b not in used and not any(near_box(o[1:], a, 8) or near_box(o[1:], b, 8) for o in boxes):
+                    break
+            used.add(a); used.add(b)
+            if rng.chance(1, 2):
+                a, b = b, a
+            conns.append((10 + 10 * c + rng.below(3), ('P',) + a, ('P',) + b))
+    sc['boxes'] = boxes
+    sc['pins'] = pins
+    sc['conns'] = conns
+    sc['fixed'] = fixed
+    return _transform_pins(sc, rng.chance(1, 2), rng.chance(1, 2))
+
+
+def scene_views(sc):
+    """one scene per transaction of a scene with later transactions: the same scene (same script, `txn` = index of the
+    transaction) with the boxes where the moveShape ops up to that transaction have put them; boxes0 keeps the initial ones"""
+    later = sc.get('later') or []
+    if not later:
+        return [sc]
+    views = []
+    boxes = [tuple(b) for b in sc['boxes']]
+    for t in range(len(later) + 1):
+        if t > 0:
+            for (_, sid, dx, dy) in later[t - 1]:
+                boxes = [(b[0], b[1] + dx, b[2] + dy, b[3] + dx, b[4] + dy) if b[0] == sid else b for b in boxes]
+        v = dict(sc)
+        v['boxes0'] = [tuple(b) for b in sc.get('boxes0', sc['boxes'])]
+        v['boxes'] = list(boxes)
+        v['txn'] = t
+        views.append(v)
+    return views
 
 
 def _transform(sc, mirror, swap):
@@ -312,7 +545,7 @@ def gen_edge(rng, sc):
 
 def scene_text(sc):
     L = ['R %s %s %s %s %s' % (sc['pen'], sc['nudge'], sc['buf'], sc['fspp'], ' '.join(str(o) for o in sc['opts']))]
-    for (bid, x0, y0, x1, y1) in sc['boxes']:
+    for (bid, x0, y0, x1, y1) in sc.get('boxes0', sc['boxes']):
         L.append('A %d %d %d %d %d' % (bid, x0, y0, x1, y1))
     for p in sc['pins']:
         L.append('N %d %d %s %s %s %d' % p)
@@ -325,7 +558,13 @@ def scene_text(sc):
         L.append('C %d %s %s' % (cid, end(a), end(b)))
     for cid, ps in sorted(sc['cps'].items()):
         L.append('K %d %d %s' % (cid, len(ps), ' '.join('%d %d' % p for p in ps)))
+    for cid, ps in sorted(sc.get('fixed', {}).items()):
+        L.append('F %d %d %s' % (cid, len(ps), ' '.join('%d %d' % tuple(p) for p in ps)))
     L.append('P')
+    for ops in sc.get('later') or []:
+        for (_, sid, dx, dy) in ops:
+            L.append('M %d %d %d' % (sid, dx, dy))
+        L.append('P')
     L.append('X')
     return '\n'.join(L) + '\n'
 
@@ -501,6 +740,14 @@ def driver_scene(sc, res, tol='1/f4240'):
             return '%d %s' % (len(ps), ' '.join('%s %s' % (qstr(p[0]), qstr(p[1])) for p in ps))
         att = attached(sc, cid)
         L.append('CONN %d %s %s %s %d %s' % (cid, pts(raw), pts(disp), pts(cps), len(att), ' '.join(str(x) for x in att)))
+    for cid, given in sorted(sc.get('fixed', {}).items()):
+        # a fixed route: the "raw" route is the route the client gave (route() returns exactly it, checked by the caller)
+        rt = res['routes'].get(cid, {})
+        disp = rt.get('D', [])
+
+        def pts(ps):
+            return '%d %s' % (len(ps), ' '.join('%s %s' % (qstr(p[0]), qstr(p[1])) for p in ps))
+        L.append('CONN %d %s %s 0  0  FX' % (cid, pts([tuple(p) for p in given]), pts(disp)))
     L.append('ENDSCENE')
     return L
 
@@ -775,3 +1022,41 @@ def order_against_limits(regions, a, b):
                 if lowest + gap > highest:
                     return True
     return False
+
+
+def fixed_route_middle_shifted(sc, r, cid, earlier=()):
+    """finding fixed_route_middle_segment_shifted: connector cid has a fixed route, its display route has the same first
+    and last point as the given route and no more bends (the unifying step may merge two shifted middle segments and the
+    bends between them disappear), it differs from it, and some dumped region that ended
+    satisfied holds a NON-fixed segment of cid (a middle segment of the fixed route built as a shiftable
+    NudgingShiftSegment) whose written position differs from the position it had - in this transaction or in an earlier
+    transaction of the same scene (`earlier` = the results of the earlier transactions: a fixed route is never rerouted,
+    its display route persists)"""
+    given = sc.get('fixed', {}).get(cid)
+    disp = r['routes'].get(cid, {}).get('D')
+    if not given or not disp:
+        return False
+    g = _simplify([tuple(float(v) for v in p) for p in given])
+    d = _simplify(disp)
+    if len(d) > len(g) or g[0] != d[0] or g[-1] != d[-1] or g == d:
+        return False
+    for rr in [r] + list(earlier):
+        for reg in rr['regions']:
+            if not reg['end'] or not reg['end']['sat']:
+                continue
+            for i, sg in enumerate(reg['segs']):
+                if sg['conn'] == cid and not sg['fixed'] and not sg['final'] and reg['end']['pos'][i] != sg['pos']:
+                    return True
+    return False
+
+
+def _simplify(ps):
+    out = []
+    for p in ps:
+        p = tuple(p)
+        if out and out[-1] == p:
+            continue
+        while len(out) >= 2 and ((out[-2][0] == out[-1][0] == p[0]) or (out[-2][1] == out[-1][1] == p[1])):
+            out.pop()
+        out.append(p)
+    return out
